@@ -4,7 +4,8 @@
 (* tokens without changing acceptance or the tree, whitespace aside.       *)
 (* A run is a non-empty sequence of kinds:                                 *)
 (*   blanks       sp ht ff nl crlf                                         *)
-(*   comments     lcmt (one-line, carries its line break) bcmt             *)
+(*   comments     lcmt (one-line, carries its line break) bcmt, ecmt (the  *)
+(*                empty block comment), scmt (block comment of stars)       *)
 (*   argument-closed compiler directives                                   *)
 (*                celldefine endcelldefine default_nettype timescale       *)
 (*                unconnected_drive nounconnected_drive line define undef  *)
@@ -17,14 +18,14 @@
 EXTENDS Naturals, Sequences, FiniteSets, TLC
 
 Blanks == {"sp", "ht", "ff", "nl", "crlf"}
-Comments == {"lcmt", "bcmt"}
+Comments == {"lcmt", "bcmt", "ecmt", "scmt"}
 Directives == {"celldefine", "endcelldefine", "default_nettype", "timescale", "unconnected_drive", "nounconnected_drive",
                "line", "define", "undef"}
 Kinds == Blanks \cup Comments \cup Directives \cup {"resetall"}
 
 KindText(k) ==
   CASE k = "sp" -> " " [] k = "ht" -> "\t" [] k = "ff" -> "\f" [] k = "nl" -> "\n" [] k = "crlf" -> "\r\n"
-    [] k = "lcmt" -> "// c ü\n" [] k = "bcmt" -> "/* c é */"
+    [] k = "lcmt" -> "// c ü\n" [] k = "bcmt" -> "/* c é */" [] k = "ecmt" -> "/**/" [] k = "scmt" -> "/***/"
     [] k = "celldefine" -> "`celldefine " [] k = "endcelldefine" -> "`endcelldefine "
     [] k = "default_nettype" -> "`default_nettype wire " [] k = "timescale" -> "`timescale 1ns/1ps "
     [] k = "unconnected_drive" -> "`unconnected_drive pull1 " [] k = "nounconnected_drive" -> "`nounconnected_drive "
@@ -35,9 +36,16 @@ KindText(k) ==
 RECURSIVE RunText(_)
 RunText(run) == IF run = <<>> THEN "" ELSE KindText(Head(run)) \o RunText(Tail(run))
 
-\* top = the position is between two top-level descriptions (or before the first / after the last)
-WellFormed(run, top) ==
+\* top  = the position is between two top-level descriptions (or before the first / after the last)
+\* prev = what stands before the run: "esc" an escaped identifier, "slash" a token ending in "/", "" anything else.
+\* An escaped identifier is terminated by a space, tab or newline only (IEEE 1800-2017 5.6.1), so the run has to
+\* start with one of those; after a token that ends in "/" a run may not start with a comment (the two would lex
+\* as one comment opener).
+TrueBlanks == {"sp", "ht", "nl", "crlf"}
+WellFormed(run, top, prev) ==
   /\ run # <<>>
   /\ \A i \in 1..Len(run) : run[i] \in Kinds
   /\ (\E i \in 1..Len(run) : run[i] = "resetall") => top
+  /\ (prev = "esc" => run[1] \in TrueBlanks)
+  /\ (prev = "slash" => run[1] \notin Comments)
 =============================================================================
